@@ -106,7 +106,8 @@ static int32_t fd_cb(int32_t fd, int32_t revents, void *data)
 	for (int k = 0; k < n; k++) if (read(f.rfd, buf, 1) == 1) f.bytes--;
 	do_actions(vr_u8(&V) % 3);
 	int rc = 0;
-	if (f.reg && f.ret_neg && !winding_down && vr_u8(&V) % 3 == 0) { rc = -1; f.reg = false; VCLASS(R, K_FDRET); VLOG(R, "      fd #%d returns -1 (removes itself)\n", t->idx); }
+	/* a negative return removes the registration; it is also what a handler returns after it has already deleted itself (and maybe registered a successor) */
+	if (f.ret_neg && !winding_down && vr_u8(&V) % 3 == 0) { rc = -1; VCLASS(R, K_FDRET); VLOG(R, "      fd #%d returns -1 (%s)\n", t->idx, f.reg ? "removes itself" : "it had deleted itself already"); f.reg = false; }
 	leave();
 	return rc;
 }
